@@ -1,4 +1,5 @@
 import VaxisModel.Lemmas.DynExec
+import VaxisModel.Lemmas.DynList
 
 /-! `Dynamic.Draw`, executed phase by phase (`Model/DynExec.lean` on the trees `draw0 … draw17` of
     `Lemmas/DynTrees.lean`), is `DynList.draw Facts.fixed`. -/
@@ -172,5 +173,467 @@ theorem dd_loop (R : Ro) (hs : List Nat) (hb : R.b = builder hs) (st : St) (tag 
         exact ⟨_, rfl⟩
       · simp only [if_neg hw, if_neg hH, exec_skip]
         exact ⟨ρ', hr⟩
+
+/-! #### loops that only touch locals -/
+
+theorem rangeN_frame (k v : String) (body : M → Res) (P : List (String × Int) → Prop) (st : St) (cs : List Child)
+    (us : List String) (tag : String)
+    (hbody : ∀ ρ (i : Nat) c, P ρ → ∃ ρ', body (bindChild (VaxisModel.Model.DynExec.bind ⟨st, cs, ρ, us, tag⟩ k i) v c) =
+        .ok (⟨st, cs, ρ', us, tag⟩, .norm) ∧ P ρ') :
+    ∀ (n i : Nat) (ρ : List (String × Int)), i + n ≤ cs.length → P ρ →
+      ∃ ρ', rangeN k v body n i ⟨st, cs, ρ, us, tag⟩ = .ok (⟨st, cs, ρ', us, tag⟩, .norm) ∧ P ρ' := by
+  intro n
+  induction n with
+  | zero => intro i ρ _ hP; exact ⟨ρ, rfl, hP⟩
+  | succ n ih =>
+    intro i ρ hi hP
+    have hlt : i < cs.length := by omega
+    have hget : cs[i]? = some cs[i] := List.getElem?_eq_getElem hlt
+    obtain ⟨ρ1, h1, hP1⟩ := hbody ρ i cs[i] hP
+    obtain ⟨ρ2, h2, hP2⟩ := ih (i + 1) ρ1 (by omega) hP1
+    refine ⟨ρ2, ?_, hP2⟩
+    rw [rangeN]
+    simp only [hget, h1]
+    exact h2
+
+/-! #### `totalHeight` (computed, never used) -/
+
+def thBody : Stmt := match draw12 with | .range _ _ b => b | _ => .skip
+theorem draw12_eq : draw12 = .range "_" "v12" thBody := rfl
+
+theorem th_exec (R : Ro) (st : St) (cs : List Child) (ρ : List (String × Int)) (tag : String) (F : Nat) (rest : List Stmt) :
+    ∃ ρ', exec R (seqOf (draw11 :: draw12 :: draw13 :: rest)) F ⟨st, cs, ρ, ["v3"], tag⟩ =
+      exec R (seqOf rest) F ⟨st, cs, ρ', ["v3"], tag⟩ := by
+  obtain ⟨ρ1, h1, x, hx⟩ := rangeN_frame "_" "v12" (exec R thBody F) (fun ρ => ∃ x, lookup ρ "v11" = some x) st cs ["v3"] tag
+    (by
+      intro ρ i c ⟨x, hx⟩
+      refine ⟨("v11", x + c.height) :: ("v12.Surface.Widget", (c.idx : Int)) :: ("v12.Surface.Size.Height", (c.height : Int)) ::
+        ("v12.Origin.Row", c.row) :: ("_", (i : Int)) :: ρ, ?_, ⟨x + c.height, by simp [lookup]⟩⟩
+      xs [thBody, draw12, hx])
+    cs.length 0 (("v11", 0) :: ρ) (by omega) ⟨0, by simp [lookup]⟩
+  rw [seqOf_cons]
+  have h11 : exec R draw11 F ⟨st, cs, ρ, ["v3"], tag⟩ = .ok (⟨st, cs, ("v11", 0) :: ρ, ["v3"], tag⟩, .norm) := by
+    xs [draw11]
+  rw [h11]
+  simp only []
+  rw [seqOf_cons, draw12_eq]
+  simp only [exec]
+  rw [h1]
+  simp only []
+  by_cases hg : R.gap > 0 ∧ cs.length > 1
+  · have h2 : (1 : Int) < cs.length := by omega
+    have h3 : (0 : Int) < R.gap := hg.1
+    refine ⟨("v11", x + ((cs.length : Int) - 1) * R.gap) :: ρ1, ?_⟩
+    xs [draw13, hx, hg, hg.1, hg.2, h2, h3]
+  · refine ⟨ρ1, ?_⟩
+    by_cases h3 : R.gap > 0
+    · have h2 : ¬ (cs.length > 1) := fun h => hg ⟨h3, h⟩
+      have h2' : ¬ ((1 : Int) < cs.length) := by omega
+      have h3' : (0 : Int) < R.gap := h3
+      xs [draw13, hx, h2, h2', h3, h3']
+    · have h3' : ¬ ((0 : Int) < R.gap) := h3
+      xs [draw13, hx, h3, h3']
+
+/-! #### the wants-cursor block -/
+
+def rvB1 : Stmt :=
+  (.seq (.atom ⟨4, .addAssign, (.var "v24.Origin.Row"), (.var "v22")⟩)
+          (.seq (.atom ⟨4, .assign, (.index (.var "v1.Children") (.var "v23")), (.var "v24")⟩)
+          .skip))
+
+def rvB2 : Stmt :=
+  (.seq (.atom ⟨5, .addAssign, (.var "v27.Origin.Row"), (.var "v25")⟩)
+            (.seq (.atom ⟨5, .assign, (.index (.var "v1.Children") (.var "v26")), (.var "v27")⟩)
+            .skip))
+
+def draw15T (B1 B2 : Stmt) : Stmt :=
+  (.ite (.var "d.scroll.wantsCursor")
+    (.seq (.atom ⟨1, .define, (.var "v19"), (.bin "-" (.var "d.cursor") (.var "d.scroll.top"))⟩)
+    (.seq (.ite (.bin "<" (.var "v19") (.arg (.call (.var "uint")) (.arg (.call (.var "len")) (.var "v1.Children"))))
+      (.seq (.atom ⟨2, .define, (.var "v20"), (.index (.var "v1.Children") (.var "v19"))⟩)
+      (.seq (.atom ⟨2, .define, (.var "v21"), (.bin "+" (.var "v20.Origin.Row") (.arg (.call (.var "int")) (.var "v20.Surface.Size.Height")))⟩)
+      (.seq (.ite (.bin ">" (.var "v21") (.arg (.call (.var "int")) (.var "v0.Max.Height")))
+        (.seq (.atom ⟨3, .define, (.var "v22"), (.bin "-" (.arg (.call (.var "int")) (.var "v0.Max.Height")) (.var "v21"))⟩)
+        (.seq (.range "v23" "v24"
+          B1)
+        .skip))
+        (.seq (.ite (.bin "<" (.var "v20.Origin.Row") (.int 0))
+          (.seq (.atom ⟨4, .define, (.var "v25"), (.un "-" (.var "v20.Origin.Row"))⟩)
+          (.seq (.range "v26" "v27"
+            B2)
+          .skip))
+          .skip)
+        .skip))
+      (.seq (.atom ⟨2, .assign, (.var "d.scroll.wantsCursor"), (.var "false")⟩)
+      .skip))))
+      .skip)
+    .skip))
+    .skip)
+
+
+theorem draw15_eq : draw15 = draw15T rvB1 rvB2 := rfl
+
+theorem rangeN_map (k v : String) (body : M → Res) (f : Child → Child) (P : List (String × Int) → Prop) (st : St)
+    (us : List String) (tag : String)
+    (hbody : ∀ (cs : List Child) ρ (i : Nat) c, i < cs.length → P ρ →
+      ∃ ρ', body (bindChild (VaxisModel.Model.DynExec.bind ⟨st, cs, ρ, us, tag⟩ k i) v c) =
+        .ok (⟨st, cs.set i (f c), ρ', us, tag⟩, .norm) ∧ P ρ') :
+    ∀ (suf pre : List Child) (ρ : List (String × Int)), P ρ →
+      ∃ ρ', rangeN k v body suf.length pre.length ⟨st, pre ++ suf, ρ, us, tag⟩ =
+        .ok (⟨st, pre ++ suf.map f, ρ', us, tag⟩, .norm) ∧ P ρ' := by
+  intro suf
+  induction suf with
+  | nil => intro pre ρ hP; exact ⟨ρ, rfl, hP⟩
+  | cons c rest ih =>
+    intro pre ρ hP
+    have hget : (pre ++ c :: rest)[pre.length]? = some c := by simp
+    have hlen : pre.length < (pre ++ c :: rest).length := by simp
+    obtain ⟨ρ1, h1, hP1⟩ := hbody (pre ++ c :: rest) ρ pre.length c hlen hP
+    have hset : (pre ++ c :: rest).set pre.length (f c) = (pre ++ [f c]) ++ rest := by simp
+    rw [hset] at h1
+    obtain ⟨ρ2, h2, hP2⟩ := ih (pre ++ [f c]) ρ1 hP1
+    have hl : (pre ++ [f c]).length = pre.length + 1 := by simp
+    rw [hl] at h2
+    refine ⟨ρ2, ?_, hP2⟩
+    simp only [List.length_cons, rangeN, hget, h1]
+    rw [h2]
+    simp
+
+theorem rv_map1 (R : Ro) (st : St) (us : List String) (hus : us = ["v3"] ∨ us = ["v14", "v3"] ∨ us = ["v19", "v3"] ∨ us = ["v19", "v14", "v3"]) (tag : String) (F : Nat) (adj : Int)
+    (cs : List Child) (ρ : List (String × Int)) (hv : lookup ρ "v22" = some adj) :
+    ∃ ρ', rangeN "v23" "v24" (exec R rvB1 F) cs.length 0 ⟨st, cs, ρ, us, tag⟩ =
+      .ok (⟨st, cs.map (fun c => { c with row := c.row + adj }), ρ', us, tag⟩, .norm) := by
+  obtain ⟨ρ', h, _⟩ := rangeN_map "v23" "v24" (exec R rvB1 F) (fun c => { c with row := c.row + adj })
+    (fun ρ => lookup ρ "v22" = some adj) st us tag
+    (by
+      intro cs ρ i c hi hP
+      have hi' : ¬ (cs.length ≤ i) := by omega
+      have hneg : ¬ ((i : Int) < 0) := by omega
+      refine ⟨("v24.Origin.Row", c.row + adj) :: ("v24.Surface.Widget", (c.idx : Int)) :: ("v24.Surface.Size.Height", (c.height : Int)) ::
+        ("v24.Origin.Row", c.row) :: ("v23", (i : Int)) :: ρ, ?_, by simp [lookup, hP]⟩
+      rcases hus with rfl | rfl | rfl | rfl <;> xs [rvB1, hP, hi', hneg, setAt])
+    cs [] ρ hv
+  exact ⟨ρ', by simpa using h⟩
+
+theorem rv_map2 (R : Ro) (st : St) (us : List String) (hus : us = ["v3"] ∨ us = ["v14", "v3"] ∨ us = ["v19", "v3"] ∨ us = ["v19", "v14", "v3"]) (tag : String) (F : Nat) (adj : Int)
+    (cs : List Child) (ρ : List (String × Int)) (hv : lookup ρ "v25" = some adj) :
+    ∃ ρ', rangeN "v26" "v27" (exec R rvB2 F) cs.length 0 ⟨st, cs, ρ, us, tag⟩ =
+      .ok (⟨st, cs.map (fun c => { c with row := c.row + adj }), ρ', us, tag⟩, .norm) := by
+  obtain ⟨ρ', h, _⟩ := rangeN_map "v26" "v27" (exec R rvB2 F) (fun c => { c with row := c.row + adj })
+    (fun ρ => lookup ρ "v25" = some adj) st us tag
+    (by
+      intro cs ρ i c hi hP
+      have hi' : ¬ (cs.length ≤ i) := by omega
+      have hneg : ¬ ((i : Int) < 0) := by omega
+      refine ⟨("v27.Origin.Row", c.row + adj) :: ("v27.Surface.Widget", (c.idx : Int)) :: ("v27.Surface.Size.Height", (c.height : Int)) ::
+        ("v27.Origin.Row", c.row) :: ("v26", (i : Int)) :: ρ, ?_, by simp [lookup, hP]⟩
+      rcases hus with rfl | rfl | rfl | rfl <;> xs [rvB2, hP, hi', hneg, setAt])
+    cs [] ρ hv
+  exact ⟨ρ', by simpa using h⟩
+
+/-- `DynList.reveal` (with both repairs), the child index `cursor - top` given as `x`. -/
+def revealX (cs : List Child) (s : St) (H : Nat) (x : Nat) : List Child × St :=
+  if s.wantsCursor then
+    if x < cs.length then
+      match cs[x]? with
+      | some ch =>
+        (if ch.row + (ch.height : Int) > H then cs.map fun c => { c with row := c.row + ((H : Int) - (ch.row + (ch.height : Int))) }
+         else if ch.row < 0 then cs.map fun c => { c with row := c.row + (- ch.row) } else cs, { s with wantsCursor := false })
+      | none => (cs, s)
+    else (cs, s)
+  else (cs, s)
+
+theorem cursorChild_x (cs : List Child) (cursor top x : Nat) (hx : usub cursor top = x) :
+    cursorChild true cs cursor top =
+      if x < cs.length then (match cs[x]? with | some c => .ok (some c) | none => .error (.childIndex x cs.length)) else .ok none := by
+  unfold cursorChild
+  simp only [hx, ↓reduceIte]
+  rfl
+
+theorem reveal_eq (cs : List Child) (s : St) (H : Nat) (x : Nat) (hx : usub s.cursor s.top = x) :
+    reveal true true cs s H = .ok (revealX cs s H x) := by
+  unfold reveal revealX
+  rw [cursorChild_x cs s.cursor s.top x hx]
+  by_cases hw : s.wantsCursor = true
+  · by_cases hxl : x < cs.length
+    · have hget : cs[x]? = some cs[x] := List.getElem?_eq_getElem hxl
+      simp [hw, hxl, hget]
+    · simp [hw, hxl]
+  · simp [hw]
+
+theorem rv_exec (R : Ro) (st : St) (cs : List Child) (ρ : List (String × Int)) (us : List String)
+    (hus : us = ["v3"] ∨ us = ["v14", "v3"]) (tag : String) (F : Nat) (x : Nat)
+    (hx : usubI ↑st.cursor ↑st.top = ↑x) :
+    ∃ ρ' us', exec R (draw15T rvB1 rvB2) F ⟨st, cs, ρ, us, tag⟩ =
+      .ok (⟨(revealX cs st R.H x).2, (revealX cs st R.H x).1, ρ', us', tag⟩, .norm) ∧ (us' = us ∨ us' = "v19" :: us) := by
+  unfold revealX
+  by_cases hw : st.wantsCursor = true
+  · by_cases hxl : x < cs.length
+    · have hget : cs[x]? = some cs[x] := List.getElem?_eq_getElem hxl
+      have hxl' : (x : Int) < cs.length := by omega
+      have hneg : ¬ ((x : Int) < 0) := by omega
+      simp only [hw, hxl, hget, ↓reduceIte]
+      have hus' : ("v19" :: us) = ["v3"] ∨ ("v19" :: us) = ["v14", "v3"] ∨ ("v19" :: us) = ["v19", "v3"] ∨ ("v19" :: us) = ["v19", "v14", "v3"] := by
+        rcases hus with rfl | rfl <;> simp
+      by_cases hb : cs[x].row + (cs[x].height : Int) > R.H
+      · obtain ⟨ρ1, h1⟩ := rv_map1 R st ("v19" :: us) hus' tag F ((R.H : Int) - (cs[x].row + ↑cs[x].height)) cs
+          (("v22", (R.H : Int) - (cs[x].row + ↑cs[x].height)) :: ("v21", cs[x].row + ↑cs[x].height) :: ("v20.Surface.Widget", (cs[x].idx : Int)) ::
+            ("v20.Surface.Size.Height", (cs[x].height : Int)) :: ("v20.Origin.Row", cs[x].row) :: ("v19", (x : Int)) :: ρ) (by simp [lookup])
+        have hb' : (R.H : Int) < cs[x].row + ↑cs[x].height := hb
+        refine ⟨ρ1, "v19" :: us, ?_, Or.inr rfl⟩
+        rcases hus with rfl | rfl <;>
+        xs [draw15T, hw, hx, hxl, hxl', hneg, hget, hb, hb', h1]
+      · have hb' : ¬ ((R.H : Int) < cs[x].row + ↑cs[x].height) := hb
+        by_cases hr : cs[x].row < 0
+        · obtain ⟨ρ1, h1⟩ := rv_map2 R st ("v19" :: us) hus' tag F (- cs[x].row) cs
+            (("v25", - cs[x].row) :: ("v21", cs[x].row + ↑cs[x].height) :: ("v20.Surface.Widget", (cs[x].idx : Int)) ::
+              ("v20.Surface.Size.Height", (cs[x].height : Int)) :: ("v20.Origin.Row", cs[x].row) :: ("v19", (x : Int)) :: ρ) (by simp [lookup])
+          refine ⟨ρ1, "v19" :: us, ?_, Or.inr rfl⟩
+          rcases hus with rfl | rfl <;>
+          xs [draw15T, hw, hx, hxl, hxl', hneg, hget, hb, hb', hr, h1]
+        · refine ⟨("v21", cs[x].row + ↑cs[x].height) :: ("v20.Surface.Widget", (cs[x].idx : Int)) ::
+              ("v20.Surface.Size.Height", (cs[x].height : Int)) :: ("v20.Origin.Row", cs[x].row) :: ("v19", (x : Int)) :: ρ, "v19" :: us, ?_, Or.inr rfl⟩
+          rcases hus with rfl | rfl <;>
+          xs [draw15T, hw, hx, hxl, hxl', hneg, hget, hb, hb', hr]
+    · have hxl' : ¬ ((x : Int) < cs.length) := by omega
+      simp only [hw, hxl, ↓reduceIte]
+      refine ⟨("v19", (x : Int)) :: ρ, "v19" :: us, ?_, Or.inr rfl⟩
+      xs [draw15T, hw, hx, hxl, hxl']
+  · simp only [hw, ↓reduceIte]
+    refine ⟨ρ, us, ?_, Or.inl rfl⟩
+    xs [draw15T, hw]
+
+
+/-! #### the final re-anchoring loop -/
+
+def rtBody : Stmt := match draw16 with | .range _ _ b => b | _ => .skip
+theorem draw16_eq : draw16 = .range "v28" "v29" rtBody := rfl
+
+theorem rt_body (R : Ro) (cursor top : Nat) (offset pending : Int) (wants : Bool) (cs : List Child) (ρ : List (String × Int))
+    (us : List String) (hus : us = ["v3"] ∨ us = ["v14", "v3"] ∨ us = ["v19", "v3"] ∨ us = ["v19", "v14", "v3"])
+    (tag : String) (F : Nat) (i : Nat) (c : Child) (y : Nat) (hy : uaddI ↑top (toUintI ↑i) = ↑y) (hyl : y < 2 ^ 64) :
+    ∃ ρ', exec R rtBody F (bindChild (VaxisModel.Model.DynExec.bind ⟨⟨cursor, top, offset, pending, wants⟩, cs, ρ, us, tag⟩ "v28" i) "v29" c) =
+      .ok (⟨if c.row ≤ 0 ∧ c.row + (c.height : Int) + R.gap > 0 then ⟨cursor, y, - c.row, pending, wants⟩
+            else ⟨cursor, top, offset, pending, wants⟩, cs, ρ', us, tag⟩, .norm) := by
+  by_cases h : c.row ≤ 0 ∧ c.row + (c.height : Int) + R.gap > 0
+  · have h2 : 0 < c.row + (c.height : Int) + R.gap := h.2
+    refine ⟨("v29.Surface.Widget", (c.idx : Int)) :: ("v29.Surface.Size.Height", (c.height : Int)) :: ("v29.Origin.Row", c.row) :: ("v28", (i : Int)) :: ρ, ?_⟩
+    rcases hus with rfl | rfl | rfl | rfl <;>
+    xs [rtBody, draw16, h, h.1, h.2, h2, hy, toUint_cast _ hyl]
+  · refine ⟨("v29.Surface.Widget", (c.idx : Int)) :: ("v29.Surface.Size.Height", (c.height : Int)) :: ("v29.Origin.Row", c.row) :: ("v28", (i : Int)) :: ρ, ?_⟩
+    by_cases h1 : c.row ≤ 0
+    · have h2 : ¬ (0 < c.row + (c.height : Int) + R.gap) := fun h' => h ⟨h1, h'⟩
+      rcases hus with rfl | rfl | rfl | rfl <;>
+      xs [rtBody, draw16, h, h1, h2]
+    · rcases hus with rfl | rfl | rfl | rfl <;>
+      xs [rtBody, draw16, h, h1]
+
+theorem uaddI_cast (top i : Nat) : uaddI ↑top (toUintI ↑i) = ((uadd top i : Nat) : Int) := by
+  unfold uaddI toUintI uadd; rw [U_val, U_nat]; omega
+
+theorem rt_range (R : Ro) (cursor : Nat) (pending : Int) (wants : Bool)
+    (us : List String) (hus : us = ["v3"] ∨ us = ["v14", "v3"] ∨ us = ["v19", "v3"] ∨ us = ["v19", "v14", "v3"])
+    (tag : String) (F : Nat) :
+    ∀ (suf pre : List Child) (top : Nat) (offset : Int) (ρ : List (String × Int)),
+      ∃ ρ', rangeN "v28" "v29" (exec R rtBody F) suf.length pre.length ⟨⟨cursor, top, offset, pending, wants⟩, pre ++ suf, ρ, us, tag⟩ =
+        .ok (⟨⟨cursor, (retop R.gap suf pre.length (top, offset)).1, (retop R.gap suf pre.length (top, offset)).2, pending, wants⟩,
+              pre ++ suf, ρ', us, tag⟩, .norm) := by
+  intro suf
+  induction suf with
+  | nil => intro pre top offset ρ; exact ⟨ρ, rfl⟩
+  | cons c rest ih =>
+    intro pre top offset ρ
+    have hget : (pre ++ c :: rest)[pre.length]? = some c := by simp
+    obtain ⟨ρ1, h1⟩ := rt_body R cursor top offset pending wants (pre ++ c :: rest) ρ us hus tag F pre.length c (uadd top pre.length)
+      (uaddI_cast top pre.length) (uadd_lt _ _)
+    have happ : pre ++ c :: rest = (pre ++ [c]) ++ rest := by simp
+    have hl : (pre ++ [c]).length = pre.length + 1 := by simp
+    simp only [List.length_cons, rangeN, hget, h1]
+    unfold retop
+    by_cases hc : c.row ≤ 0 ∧ c.row + (c.height : Int) + R.gap > 0
+    · obtain ⟨ρ2, h2⟩ := ih (pre ++ [c]) (uadd top pre.length) (- c.row) ρ1
+      rw [hl, ← happ] at h2
+      simp only [if_pos hc]
+      exact ⟨ρ2, h2⟩
+    · obtain ⟨ρ2, h2⟩ := ih (pre ++ [c]) top offset ρ1
+      rw [hl, ← happ] at h2
+      simp only [if_neg hc]
+      exact ⟨ρ2, h2⟩
+
+/-! #### small phases -/
+
+theorem d0_exec (R : Ro) (F : Nat) (m : M) :
+    exec R draw0 F m = if R.H = 65535 ∨ R.W = 65535 then .error .panic else .ok (m, .norm) := by
+  by_cases h1 : R.H = 65535
+  · xs [draw0, h1]
+  · have h1' : (R.H == 65535) = false := by simp [h1]
+    by_cases h2 : R.W = 65535
+    · xs [draw0, h1, h1', h2]
+    · have h2' : (R.W == 65535) = false := by simp [h2]
+      xs [draw0, h1, h1', h2, h2']
+
+theorem d1_exec (R : Ro) (F : Nat) (st : St) (cs : List Child) (ρ : List (String × Int)) (us : List String) (tag : String) :
+    exec R draw1 F ⟨st, cs, ρ, us, tag⟩ = .ok (⟨st, [], ρ, us, tag⟩, .norm) := by
+  xs [draw1]
+
+theorem d89_exec (R : Ro) (st : St) (cs : List Child) (ρ : List (String × Int)) (tag : String) (F : Nat) (rest : List Stmt) :
+    ∃ ρ', exec R (seqOf (draw8 :: draw9 :: rest)) F ⟨st, cs, ρ, ["v3"], tag⟩ = exec R (seqOf rest) F ⟨st, cs, ρ', ["v3"], tag⟩ ∧
+      lookup ρ' "v2" = lookup ρ "v2" ∧ lookup ρ' "v3" = lookup ρ "v3" := by
+  cases hd : R.drawCursor
+  · exact ⟨("v6", 0) :: ρ, by xs [draw8, draw9, hd], by simp [lookup], by simp [lookup]⟩
+  · exact ⟨("v6", 2) :: ("v6", 0) :: ρ, by xs [draw8, draw9, hd], by simp [lookup], by simp [lookup]⟩
+
+theorem exec_range (R : Ro) (k v : String) (b : Stmt) (f : Nat) (m : M) :
+    exec R (.range k v b) f m = rangeN k v (exec R b f) m.cs.length 0 m := rfl
+
+theorem gu_exec (R : Ro) (st : St) (cs : List Child) (ρ : List (String × Int)) (tag : String) (F : Nat)
+    (hdc : R.drawCursor = false) :
+    ∃ ρ' us', exec R draw14 F ⟨st, cs, ρ, ["v3"], tag⟩ = .ok (⟨st, cs, ρ', us', tag⟩, .norm) ∧
+      (us' = ["v3"] ∨ us' = ["v14", "v3"]) := by
+  exact ⟨ρ, ["v3"], by xs [draw14, hdc], Or.inl rfl⟩
+
+theorem gutter_ok (cfg : Cfg) (cs : List Child) (s : St) : gutter Facts.fixed cfg cs s = .ok () := by
+  unfold gutter
+  by_cases h : cfg.drawCursor = true ∧ (Facts.fixed.cursorGuard = false ∨ s.cursor ≥ s.top)
+  · rw [if_pos h, show Facts.fixed.uintIndex = true from rfl, cursorChild_x cs s.cursor s.top _ rfl]
+    generalize usub s.cursor s.top = x
+    by_cases hl : x < cs.length
+    · rw [if_pos hl, List.getElem?_eq_getElem hl]
+    · rw [if_neg hl]
+  · rw [if_neg h]
+
+/-! #### the whole of `Draw` -/
+
+/-- The read-only part `runDraw` executes `Draw` with. -/
+def drawRo (hs : List Nat) (cfg : Cfg) (W H : Nat) : Ro :=
+  { roBase (builder hs) cfg W H with
+    call := fun n => if n = "d.insertChildren" then some (insertCallee expBodies (roBase (builder hs) cfg W H)) else Option.none }
+
+theorem toUintI_sub' (a b : Nat) : usubI ↑a ↑b = ((usub a b : Nat) : Int) := by
+  unfold usubI toUintI usub; rw [U_val, U_nat]; omega
+
+theorem pro_facts (s : St) : (prologue s).2.top = s.top ∧ (prologue s).2.cursor = s.cursor ∧
+    ((prologue s).1 > 0 → 1 ≤ s.top) := by
+  unfold prologue
+  simp only []
+  split
+  · rename_i h; exact ⟨rfl, rfl, fun h' => by omega⟩
+  · rename_i h
+    refine ⟨rfl, rfl, fun h' => ?_⟩
+    by_cases h0 : s.top = 0
+    · exact absurd ⟨h', h0⟩ h
+    · omega
+
+theorem d17_exec (R : Ro) (F : Nat) (m : M) : ∃ vs, exec R (seqOf [draw17]) F m = .ok (m, .ret vs) := by
+  exact ⟨[(look R m "v1").getD 1, 0], by simp [seqOf, exec, atom, draw17, retVals, retVal]⟩
+
+theorem draw_exec (hs : List Nat) (cfg : Cfg) (s : St) (W H F : Nat)
+    (ht : s.top < 2 ^ 64) (hlen : hs.length < 2 ^ 64)
+    (hF : s.top + hs.length + 2 ≤ F) (hdc : cfg.drawCursor = false) :
+    runDraw expBodies (builder hs) cfg s W H F =
+      (match draw Facts.fixed cfg hs s W H with
+       | .ok r => .ok r
+       | .error _ => .error .panic) := by
+  have hRo : runDraw expBodies (builder hs) cfg s W H F =
+      (match exec (drawRo hs cfg W H) (seqOf drawParts) F ⟨s, [], [], [], ""⟩ with
+       | .error e => .error e
+       | .ok (m, _) => .ok (m.st, m.cs)) := rfl
+  rw [hRo]
+  generalize hR : drawRo hs cfg W H = R
+  have hb : R.b = builder hs := by rw [← hR]; rfl
+  have hgap : R.gap = cfg.gap := by rw [← hR]; rfl
+  have hH : R.H = H := by rw [← hR]; rfl
+  have hW : R.W = W := by rw [← hR]; rfl
+  have hRdc : R.drawCursor = false := by rw [← hR]; exact hdc
+  have hcall : R.call "d.insertChildren" = some (insertCallee expBodies (roBase (builder hs) cfg W H)) := by rw [← hR]; rfl
+  unfold draw
+  by_cases hub : H = 65535 ∨ W = 65535
+  · have hub' : R.H = 65535 ∨ R.W = 65535 := by rw [hH, hW]; exact hub
+    rw [if_pos hub]
+    unfold drawParts
+    rw [seqOf_cons, d0_exec, if_pos hub']
+  · have hub' : ¬ (R.H = 65535 ∨ R.W = 65535) := by rw [hH, hW]; exact hub
+    rw [if_neg hub]
+    unfold drawParts
+    rw [seqOf_cons, d0_exec, if_neg hub']
+    simp only []
+    rw [seqOf_cons, d1_exec]
+    simp only []
+    -- the walk back
+    obtain ⟨hc1, hc2, hc3, hc4, hc5, _⟩ := DynList.clampTop_spec hs s (by unfold U; exact ht)
+    have hcl : exec R draw2 F ⟨s, [], [], [], ""⟩ = .ok (⟨clampTop true hs s, [], [], [], ""⟩, .norm) := by
+      obtain ⟨cursor, top, offset, pending, wants⟩ := s
+      rw [draw2_eq, exec_loop]
+      exact cl_loop R hs hb cursor pending wants [] [] [] "" top top offset F ht (Nat.le_refl _) (by simp only [] at hF; omega)
+    rw [seqOf_cons, hcl]
+    simp only [show Facts.fixed.clampTop = true from rfl, show Facts.fixed.gapAbove = true from rfl,
+      show Facts.fixed.insertStops = true from rfl, show Facts.fixed.revealAbove = true from rfl,
+      show Facts.fixed.uintIndex = true from rfl, ↓reduceIte]
+    generalize clampTop true hs s = s1 at hc1 hc2 hc3 hc4 hc5 ⊢
+    -- the prologue
+    obtain ⟨ρ1, hp, hp2, hp3⟩ := pro_exec R s1 [] "" F [draw7, draw8, draw9, draw10, draw11, draw12, draw13, draw14, draw15, draw16, draw17]
+    rw [hp]
+    obtain ⟨hpt, hpc, hpp⟩ := pro_facts s1
+    generalize prologue s1 = p at hp2 hp3 hpt hpc hpp ⊢
+    obtain ⟨ah1, s2⟩ := p
+    simp only [] at hp2 hp3 hpt hpc hpp ⊢
+    -- the upward scroll
+    have hsu := su_exec R (roBase (builder hs) cfg W H) hs hcall rfl (by rw [hgap]; rfl) s2 ρ1 "" F ah1 _ hp2 hp3
+      (fun h => by have := hpp h; omega) (by omega) (by omega)
+    rw [hgap] at hsu
+    rw [seqOf_cons]
+    cases hsc : scrollUp true cfg.gap hs s2 ah1 with
+    | error e =>
+      rw [hsc] at hsu
+      simp only [] at hsu ⊢
+      rw [hsu]
+    | ok r =>
+      obtain ⟨ah2, s3, cs0⟩ := r
+      rw [hsc] at hsu
+      simp only [] at hsu ⊢
+      obtain ⟨ρ2, hd7, hv2, hv3⟩ := hsu
+      rw [hd7]
+      simp only []
+      -- colOffset
+      obtain ⟨ρ3, h89, h89a, h89b⟩ := d89_exec R s3 cs0 ρ2 "" F [draw10, draw11, draw12, draw13, draw14, draw15, draw16, draw17]
+      rw [h89]
+      rw [hv2] at h89a
+      rw [hv3] at h89b
+      -- the downward loop
+      have hbound : s2.top + (hs.drop s2.top).length < 2 ^ 64 := by
+        rw [List.length_drop]
+        rcases hc2 with h | h <;> omega
+      obtain ⟨ρ4, hdd⟩ := dd_loop R hs hb s3 "" (hs.drop s2.top) s2.top ah2 cs0 ρ3 F rfl hbound
+        (by rw [List.length_drop]; omega) h89a h89b
+      rw [seqOf_cons, draw10_eq, exec_loop, hdd]
+      simp only []
+      rw [hgap, hH]
+      generalize drawDown cfg.gap s3.wantsCursor s3.cursor (↑H) (List.drop s2.top hs) s2.top ah2 cs0 = cs1
+      -- totalHeight
+      obtain ⟨ρ5, hth⟩ := th_exec R s3 cs1 ρ4 "" F [draw14, draw15, draw16, draw17]
+      rw [hth]
+      -- the gutter
+      obtain ⟨ρ6, us6, hgu, hus6⟩ := gu_exec R s3 cs1 ρ5 "" F hRdc
+      rw [seqOf_cons, hgu, gutter_ok]
+      simp only []
+      -- the wants-cursor block
+      obtain ⟨ρ7, us7, hrv, hus7⟩ := rv_exec R s3 cs1 ρ6 us6 hus6 "" F (usub s3.cursor s3.top) (toUintI_sub' _ _)
+      rw [seqOf_cons, draw15_eq, hrv, reveal_eq cs1 s3 H _ rfl, hH]
+      simp only []
+      generalize revealX cs1 s3 H (usub s3.cursor s3.top) = rr
+      obtain ⟨cs2, s4⟩ := rr
+      obtain ⟨c4, t4, o4, p4, w4⟩ := s4
+      simp only []
+      -- the final loop
+      have hus7' : us7 = ["v3"] ∨ us7 = ["v14", "v3"] ∨ us7 = ["v19", "v3"] ∨ us7 = ["v19", "v14", "v3"] := by
+        rcases hus7 with h | h <;> rcases hus6 with h' | h' <;> subst h <;> subst h' <;> simp
+      obtain ⟨ρ8, hrt⟩ := rt_range R c4 p4 w4 us7 hus7' "" F cs2 [] t4 o4 ρ7
+      simp only [List.nil_append, List.length_nil] at hrt
+      rw [seqOf_cons, draw16_eq, exec_range]
+      simp only []
+      rw [hrt, hgap]
+      simp only []
+      obtain ⟨vs, h17⟩ := d17_exec R F ⟨⟨c4, (retop cfg.gap cs2 0 (t4, o4)).1, (retop cfg.gap cs2 0 (t4, o4)).2, p4, w4⟩, cs2, ρ8, us7, ""⟩
+      rw [h17]
 
 end VaxisModel.Lemmas.DynExec
